@@ -1,4 +1,5 @@
 import Hub.Proofs.RefIdx
+import Hub.Proofs.RefIdxHist
 import Hub.Proofs.OutScan
 import Hub.Model.Store
 import Hub.Generated.Layout
@@ -24,6 +25,22 @@ theorem index_step (vs : List Ver) (ks : List Key) (v : Ver) (inBatch : Bool)
     (r : Ref) (at_ : Nat) :
     liveAt (writeRefs ks vs.getLast? inBatch v) r at_ ↔ specLive (vs ++ [v]) r at_ :=
   step vs ks v inBatch hI hkt hvt hfresh r at_
+
+/-- T-C03-1b (index invariant, every history): the versions of an entity in a dataset written one after the other — any
+number, any references, deleted and live in any order, commit times non-decreasing, the predecessor counting as "in the same
+batch" exactly when it carries the same commit time — leave an index in which, for every reference and every instant,
+"the newest key ≤ at for the reference is live" ⇔ "the last version ≤ at is live and carries it". Together with
+`outgoing_eq_graph` (whose hypothesis this provides per dataset): the outgoing query is the graph of the latest versions
+after every history. -/
+theorem index_history (vs : List Ver) (hp : vs.Pairwise (fun a b => a.t ≤ b.t)) (r : Ref) (at_ : Nat) :
+    liveAt (writeAll vs [] []) r at_ ↔ specLive vs r at_ := by
+  have := hinv_writeAll vs [] [] hinv_empty (by simpa using hp)
+  simpa using this.live r at_
+
+-- non-vacuity: four versions, the last three in one batch (live, deleted, live again): the tombstone of the middle one is gone
+example : let vs : List Ver := [⟨10, false, [(5, 2), (6, 2)]⟩, ⟨20, false, [(6, 2)]⟩, ⟨20, true, []⟩, ⟨20, false, [(6, 2)]⟩]
+    vs.Pairwise (fun a b => a.t ≤ b.t) ∧
+    (writeAll vs [] []) = [⟨20, (5, 2), true⟩, ⟨20, (6, 2), false⟩, ⟨10, (6, 2), false⟩, ⟨10, (5, 2), false⟩] := by decide
 
 /-- the empty index agrees with the empty history. -/
 theorem index_init (r : Ref) (at_ : Nat) : liveAt [] r at_ ↔ specLive [] r at_ := by
